@@ -197,6 +197,18 @@ theorem msg_get_none_of_hasC_false {m : Msg} {c : Nat} (h : ¬ m.hasC c = true) 
   unfold Msg.hasC at h
   cases hg : m.get c <;> simp_all
 
+theorem eq_of_mem_nodup_cid {l : List Ent} (h : (l.map (·.cid)).Nodup) {a b : Ent} (ha : a ∈ l) (hb : b ∈ l)
+    (hc : a.cid = b.cid) : a = b := by
+  induction l with
+  | nil => cases ha
+  | cons x l ih =>
+    simp only [List.map_cons, List.nodup_cons] at h
+    rcases List.mem_cons.mp ha with rfl | ha' <;> rcases List.mem_cons.mp hb with rfl | hb'
+    · rfl
+    · exact absurd (List.mem_map.mpr ⟨b, hb', hc.symm⟩) h.1
+    · exact absurd (List.mem_map.mpr ⟨a, ha', hc⟩) h.1
+    · exact ih h.2 ha' hb'
+
 /-- What phase C does to the data of one cid: nothing and the message is silent about it (U), its
 cancel is sent (X), a want for it is sent and recorded (W), or the broadcast want was recorded while
 the peer want had meanwhile been upgraded to a still pending want-block (V). -/
@@ -211,9 +223,11 @@ theorem mark_leaf {cfg : Cfg} {s : St} {pe be : List Ent} {cs : List Nat} {msg :
       (c ∈ km.1 ↔ c ∈ s.q.cancels) ∧ km.2.get c = none)
     ∨ (m1.r.sent.get c = s.q.peer.sent.get c ∧ m2.r.sent.get c = s.q.bcst.sent.get c ∧
       c ∈ s.q.cancels ∧ c ∉ km.1 ∧ km.2.hasC c = true ∧ km.2.canc c = true)
-    ∨ (c ∉ km.1 ∧ (m1.r.sent.has c = true ∨ m2.r.sent.has c = true) ∧ km.2.hasC c = true ∧ km.2.canc c = false)
+    ∨ (c ∉ km.1 ∧ (m1.r.sent.has c = true ∨ m2.r.sent.has c = true) ∧ km.2.hasC c = true ∧ km.2.canc c = false ∧
+      km.2.get c = msg.get c ∧ (∀ e ∈ pe, e.cid = c → s.q.peer.pending.get c = some e) ∧
+      (∀ e ∈ be, e.cid = c → s.q.bcst.pending.get c = some e))
     ∨ (m1.r.pending.get c = s.q.peer.pending.get c ∧ s.q.peer.pending.blk c = true ∧ m2.r.sent.has c = true ∧
-      c ∉ km.1 ∧ km.2.get c = none) := by
+      c ∉ km.1 ∧ km.2.get c = none ∧ m1.r.sent.get c = s.q.peer.sent.get c) := by
   obtain ⟨_, _, _, _, _, M1u, M1ok, M1fail⟩ :=
     markFold_spec pe snap.ndp { r := s.q.peer, cancels := s.q.cancels, msg := msg, marked := [] }
   obtain ⟨_, _, _, _, _, M2u, M2ok, M2fail⟩ :=
@@ -261,9 +275,13 @@ theorem mark_leaf {cfg : Cfg} {s : St} {pe be : List Ent} {cs : List Nat} {msg :
           rw [hcp] at a1 a2 a3 a4
           rw [hcb] at b1 b2 b3 b4
           right; right; left
-          refine ⟨fun hh => b3 (q1.mp hh), .inl (has_of_get_add a2), ?_, ?_⟩
+          refine ⟨fun hh => b3 (q1.mp hh), .inl (has_of_get_add a2), ?_, ?_, by rw [q2, b4, a4], ?_, ?_⟩
           · exact hhas _ (by rw [q2, b4, a4])
           · exact hcanc _ (by rw [q2, b4, a4])
+          · intro e he hce
+            rw [eq_of_mem_nodup_cid snap.ndp he hep (hce.trans hcp.symm), ← hcp]; exact okP
+          · intro e he hce
+            rw [eq_of_mem_nodup_cid snap.ndb he heb (hce.trans hcb.symm), ← hcb]; exact okB
         · by_cases okB : s.q.bcst.pending.get eb.cid = some eb
           · obtain ⟨a1, a2, a3, a4⟩ := M1fail ep hep okP
             obtain ⟨b1, b2, b3, b4⟩ := M2ok eb heb okB
@@ -274,7 +292,7 @@ theorem mark_leaf {cfg : Cfg} {s : St} {pe be : List Ent} {cs : List Nat} {msg :
               · exact absurd hh okP
               · rw [← hcp]; exact hh
             right; right; right
-            exact ⟨a1, hblk, has_of_get_add b2, fun hh => b3 (q1.mp hh), by rw [q2, b4, a4]⟩
+            exact ⟨a1, hblk, has_of_get_add b2, fun hh => b3 (q1.mp hh), by rw [q2, b4, a4], a2⟩
           · obtain ⟨a1, a2, a3, a4⟩ := M1fail ep hep okP
             obtain ⟨b1, b2, b3, b4⟩ := M2fail eb heb okB
             rw [hcp] at a1 a2 a3 a4
@@ -286,9 +304,13 @@ theorem mark_leaf {cfg : Cfg} {s : St} {pe be : List Ent} {cs : List Nat} {msg :
         · obtain ⟨a1, a2, a3, a4⟩ := M1ok ep hep okP
           rw [hcp] at a1 a2 a3 a4
           right; right; left
-          refine ⟨fun hh => a3 (b3.mp (q1.mp hh)), .inl (has_of_get_add a2), ?_, ?_⟩
+          refine ⟨fun hh => a3 (b3.mp (q1.mp hh)), .inl (has_of_get_add a2), ?_, ?_, by rw [q2, b4, a4], ?_, ?_⟩
           · exact hhas _ (by rw [q2, b4, a4])
           · exact hcanc _ (by rw [q2, b4, a4])
+          · intro e he hce
+            rw [eq_of_mem_nodup_cid snap.ndp he hep (hce.trans hcp.symm), ← hcp]; exact okP
+          · intro e he hce
+            exact absurd (List.mem_map.mpr ⟨e, he, hce⟩) hB
         · obtain ⟨a1, a2, a3, a4⟩ := M1fail ep hep okP
           rw [hcp] at a1 a2 a3 a4
           left
@@ -305,9 +327,13 @@ theorem mark_leaf {cfg : Cfg} {s : St} {pe be : List Ent} {cs : List Nat} {msg :
         · obtain ⟨b1, b2, b3, b4⟩ := M2ok eb heb okB
           rw [hcb] at b1 b2 b3 b4
           right; right; left
-          refine ⟨fun hh => b3 (q1.mp hh), .inr (has_of_get_add b2), ?_, ?_⟩
+          refine ⟨fun hh => b3 (q1.mp hh), .inr (has_of_get_add b2), ?_, ?_, by rw [q2, b4, a4], ?_, ?_⟩
           · exact hhas _ (by rw [q2, b4, a4])
           · exact hcanc _ (by rw [q2, b4, a4])
+          · intro e he hce
+            exact absurd (List.mem_map.mpr ⟨e, he, hce⟩) hP
+          · intro e he hce
+            rw [eq_of_mem_nodup_cid snap.ndb he heb (hce.trans hcb.symm), ← hcb]; exact okB
         · obtain ⟨b1, b2, b3, b4⟩ := M2fail eb heb okB
           rw [hcb] at b1 b2 b3 b4
           left
